@@ -61,6 +61,8 @@ type Contract struct {
 	GhostRet []GhostRet
 	Reveal   []string // opaque predicates unfolded in every obligation of this function
 	Updates  []string // ghost variables the function may change
+	Befores  map[string][]Clause // assertions proved right before a call site
+	Region   string   // structural path of the verified sub-tree (select#0/case#0 ...); empty = whole body
 }
 
 type GhostRet struct {
@@ -70,11 +72,18 @@ type GhostRet struct {
 	Text string
 }
 
+type UFunDecl struct {
+	Name string
+	Args []string
+	Ret  string
+}
+
 type ContractSet struct {
 	ByKey map[string]*Contract // pkgpath + "." + key
 	Specs map[string]*SpecFunc // spec functions (global namespace)
 	GhostVars map[string]string // global ghost variables: name -> kind
 	GhostOrder []string
+	UFuns []*UFunDecl
 	Files []string
 }
 
@@ -274,14 +283,38 @@ func (cs *ContractSet) loadContractFile(path, pkgPath string) error {
 	for _, t := range lines {
 		fail := func(e error) error { return fmt.Errorf("%s: %q: %v", path, t, e) }
 		switch {
-		case strings.HasPrefix(t, "func "):
-			key := strings.TrimSpace(t[5:])
+		case strings.HasPrefix(t, "func "), strings.HasPrefix(t, "extern "):
+			key := strings.TrimSpace(t[strings.Index(t, " ")+1:])
 			key = strings.NewReplacer("(", "", ")", "", "*", "").Replace(key)
-			cur = &Contract{Key: key, Pkg: pkgPath, Loops: map[int]*LoopSpec{}, Flags: map[string]string{}, CallGhost: map[string]map[string]ast.Expr{}, Asserts: map[string][]Clause{}, File: path}
+			pkgPath := pkgPath
+			isExtern := strings.HasPrefix(t, "extern ")
+			if isExtern {
+				// extern <import path> <Func or Recv.Method> : assumed contract of a dependency
+				f := strings.Fields(key)
+				if len(f) != 2 {
+					return fail(fmt.Errorf("extern <import-path> <name>"))
+				}
+				pkgPath, key = f[0], f[1]
+			}
+			cur = &Contract{Key: key, Pkg: pkgPath, Trusted: isExtern, Befores: map[string][]Clause{}, Loops: map[int]*LoopSpec{}, Flags: map[string]string{}, CallGhost: map[string]map[string]ast.Expr{}, Asserts: map[string][]Clause{}, File: path}
 			if _, dup := cs.ByKey[pkgPath+"."+key]; dup {
 				return fail(fmt.Errorf("duplicate contract"))
 			}
 			cs.ByKey[pkgPath+"."+key] = cur
+		case strings.HasPrefix(t, "ufun "):
+			// ufun name(kind, kind) kind : uninterpreted ghost function
+			rest := strings.TrimSpace(t[5:])
+			op, cp := strings.Index(rest, "("), strings.LastIndex(rest, ")")
+			if op < 0 || cp < op {
+				return fail(fmt.Errorf("ufun name(kinds) kind"))
+			}
+			u := &UFunDecl{Name: strings.TrimSpace(rest[:op]), Ret: strings.TrimSpace(rest[cp+1:])}
+			for _, a := range strings.Split(rest[op+1:cp], ",") {
+				if strings.TrimSpace(a) != "" {
+					u.Args = append(u.Args, strings.TrimSpace(a))
+				}
+			}
+			cs.UFuns = append(cs.UFuns, u)
 		case strings.HasPrefix(t, "ghostvar "):
 			f := strings.SplitN(strings.TrimSpace(t[9:]), " ", 2)
 			if len(f) != 2 {
@@ -354,6 +387,8 @@ func (cs *ContractSet) loadContractFile(path, pkgPath string) error {
 				for _, n := range strings.Split(t[8:], ",") {
 					cur.Updates = append(cur.Updates, strings.TrimSpace(n))
 				}
+			case strings.HasPrefix(t, "region "):
+				cur.Region = strings.TrimSpace(t[7:])
 			case strings.HasPrefix(t, "reveal "):
 				cur.Reveal = append(cur.Reveal, strings.Fields(t[7:])...)
 			case t == "trusted":
@@ -420,6 +455,23 @@ func (cs *ContractSet) loadContractFile(path, pkgPath string) error {
 				} else {
 					return fail(fmt.Errorf("bad loop directive"))
 				}
+			case strings.HasPrefix(t, "before "):
+				f := strings.SplitN(strings.TrimSpace(t[7:]), " ", 2)
+				if len(f) < 2 {
+					return fail(fmt.Errorf("bad before"))
+				}
+				if !strings.Contains(f[0], "#") {
+					f[0] += "#0"
+				}
+				m := clauseRe.FindStringSubmatch(strings.TrimSpace(f[1]))
+				if m == nil || m[1] != "assert" {
+					return fail(fmt.Errorf("before needs assert"))
+				}
+				e, err := parseSpecExpr(m[3])
+				if err != nil {
+					return fail(err)
+				}
+				cur.Befores[f[0]] = append(cur.Befores[f[0]], Clause{Name: strings.Trim(m[2], "[]"), Text: m[3], Expr: e})
 			case strings.HasPrefix(t, "at "), strings.HasPrefix(t, "after "):
 				// after callee#k assert expr  : proved, then assumed, after the statement containing that call
 				f := strings.SplitN(strings.TrimSpace(t[strings.Index(t, " ")+1:]), " ", 2)
